@@ -119,13 +119,15 @@ func c06Check(c *kit.Case, in c06Input) {
 	var regs Registers
 	var mem Memory
 	var er ExitReason
+	var pIn, aIn []byte
 	func() {
 		defer func() {
 			if r := recover(); r != nil {
 				c.Failf("Go runtime panic in SingleInitializer: %v", r)
 			}
 		}()
-		gotCode, regs, mem, er = SingleInitializer(StandardCodeFormat(p), Argument(a))
+		pIn, aIn = append([]byte(nil), p...), append([]byte(nil), a...)
+		gotCode, regs, mem, er = SingleInitializer(StandardCodeFormat(pIn), Argument(aIn))
 	}()
 	if malformed {
 		if er == ExitContinue {
@@ -215,6 +217,18 @@ func c06Check(c *kit.Case, in c06Input) {
 	// heap bookkeeping used by sbrk: starts right after the read-write zone, limited by the stack
 	if mem.heapPointer != rwBase+c06P(wl)+z*4096 {
 		c.Failf("heap pointer %#x, want %#x", mem.heapPointer, rwBase+c06P(wl)+z*4096)
+	}
+	// last: the guest's pages must be the guest's own memory. After scribbling over every page the
+	// caller's blob and argument must still be what was passed in (no page may alias its source).
+	for _, pg := range mem.Pages {
+		if pg != nil {
+			for i := range pg.Value {
+				pg.Value[i] ^= 0xEE
+			}
+		}
+	}
+	if !bytes.Equal(pIn, p) || !bytes.Equal(aIn, a) {
+		c.Failf("writing to the initialised guest pages modified the caller's program blob or argument (a page aliases its source; o=%d w=%d a=%d)", in.OLen, in.WLen, in.ALen)
 	}
 }
 
